@@ -184,9 +184,9 @@ class C18Session(Session):
             if k == "orientation":
                 out[k] = rot_from(v)
             elif k == "parent":
-                out[k] = self.world[v]
+                out[k] = "not a collection" if v == "$junk" else self.world[v]
             elif k in ("children", "sources", "sensors", "collections"):
-                out[k] = [self.world[j] for j in v]
+                out[k] = ["not an object" if j == "$junk" else self.world[j] for j in v]
             else:
                 out[k] = v
         return out
@@ -853,6 +853,8 @@ class Sim:
                     typed = "sensors" if tname == "Sensor" else "collections" if tname == "Collection" else "sources"
                     bad = rng.choice([("position", [1.0, 2.0], "bad_position"), ("style_opacity", 7, "bad_opacity"),
                                       ("style_bogus", 1, "unknown_style_key")])
+                    if rng.random() < 0.35:  # ... or a parent that is rejected (the parent is assigned last)
+                        bad = ("parent", "$junk", "bad_parent")
                     vs.append({"kind": "tree_then_bad", "tree_key": rng.choice(["children", typed]), "members": [j],
                                "key": bad[0], "value": bad[1], "name": bad[2]})
             op["fail_variants"] = vs
